@@ -205,7 +205,20 @@ fn known_flag_token(c: &CmdSpec, inh: &Inherited, globals: &[ArgSpec], t: &[u8])
     match (known, unknown) {
         (_, 0) => Known::All,
         (0, _) => Known::None_,
-        _ => Known::Mixed,
+        _ => {
+            // A token that is not a valid cluster of defined flags can only be accepted as a
+            // value; only `-o<rest>` with `o` value-taking is left open (attached value or value?).
+            let first_takes_value = s
+                .chars()
+                .next()
+                .map(|ch| matches!(find_short(c, inh, ch, globals), Found::Arg(a, _) if min_max(a).1 > 0))
+                .unwrap_or(false);
+            if first_takes_value {
+                Known::Mixed
+            } else {
+                Known::None_
+            }
+        }
     }
 }
 
